@@ -162,6 +162,15 @@ CHECKS['C07'] = dict(
     design_ref='DESIGN.md 4/C07',
     note='Trusted: MIR = code; virtual file system; std builtins. Outside: programs beyond the skeletons, imports, constraint annotations (excluded by the property), diagnostics text.',
     technique='symbolic execution of rustc MIR — relational eval_stmts vs build over symbolic integer leaves; z3 decides path feasibility and value equality; replay with the real binary (bounded: skeletons)')
+CHECKS['C19'] = dict(
+    category='model_checking',
+    text='Each case is a small file that imports std/*.ucg and calls one helper, built by the real FileBuilder::build (parser, checker, translator, VM, the standard library pre-translated by the real Environment::new_with_vars), all from MIR. '
+         'List elements, tuple values and enumerate start/step are symbolic i64, so one run decides a helper for every element value; lengths (0..4 quick / 0..6 thorough), every in-range inclusive slice/substr index pair, split_at indices, NULL patterns, '
+         'mixed element types, strings (ASCII and Unicode) and separators of 1..2 characters are enumerated. Per path z3 decides result == reference definition (len, reversed, l[1:], zip to the shorter, l[s:e+1], sep.join, str.split, '
+         'split-then-join identity, dict filters, maybe monad laws, schema shape rules). 458 / 1131 cases.',
+    design_ref='DESIGN.md 4/C19',
+    note='Trusted: MIR = code; virtual file system; std builtins; the Python reference definitions. Outside: out-of-range indices (undocumented), longer lists/strings, parse_int without leading digits, schema shapes beyond the listed pairs.',
+    technique='symbolic execution of rustc MIR (FileBuilder::build with the real standard library) over symbolic element values; z3 decides result == reference per path; replay with the real binary via out json (bounded: lengths, strings)')
 NOT_APPLICABLE = {
 }
 ALL = ['C%02d' % i for i in range(1, 21)]
